@@ -757,6 +757,139 @@ def c08(ctx):
                           {"program": dcases[dmeta.index((p, depth, k, which, off))]["src"][:4000], "rule": p[0], "depth": depth, "context": k})
     ctx.correspondence("very deep nesting: the same context repeated 8..160 times around construct and twin", len(dcases), ndeep_ok, [],
                        "expression constructs of a sample of rules inside %s repeated 8/24/48/96/160 times; exact positions; non-trivial := confirmed prediction" % deep_ctx)
+    # ---------------------------------------------------------------- (e) same-operator chains and inside-out embeddings
+    import re as _re
+    ecases, emeta = [], []
+    for p in PAIRS:
+        if p[1] != "E":
+            continue
+        m = _re.match(r"^(.+?) (==|===|!=|in|<|>=|&&|\|\|) (.+)$", p[2])
+        if not m or "(" in p[2] or "/" in p[2]:
+            continue
+        op = m.group(2)
+        for src in ("%s %s c;" % (p[2], op), "f(%s %s c %s d);" % (p[2], op, op), "x = `${%s %s c}`;" % (p[2], op)):
+            off = src.index(p[2])
+            ecases.append({"src": src, "media": media_for(p, False), "rules": [p[0]]})
+            emeta.append(("chain", p, off, src))
+        ecases.append({"src": p[2] + ";", "media": media_for(p, False), "rules": [p[0]]})
+        emeta.append(("alone", p, 0, p[2] + ";"))
+    # the offending STATEMENT lives inside an enclosing construct; neutral statement wrappers around it must not hide it
+    INSIDE = [("no-unsafe-finally", "function io() { try { g(); } finally { ", " } }", "return 1;", "h();"),
+              ("no-unsafe-finally", "function io() { try { g(); } finally { ", " } }", "throw e;", "h();"),
+              ("no-setter-return", "({ set s(v) { ", " } });", "return 1;", "return;"),
+              ("no-await-in-loop", "async function io() { for (;;) { ", " } }", "await x;", "x;"),
+              ("no-inner-declarations", "function io() { if (c) { ", " } }", "function inner() {}", "h();")]
+    WRAP = ["block", "if-consequent", "if-alternate", "labelled-block", "try-block", "catch-block", "finally-block", "switch-case-body"]
+    WRAP = [w for w in WRAP if w in CTX]
+    for (rule, pre, suf, stmt, twin) in INSIDE:
+        for chain in [[]] + [[w] for w in WRAP] + [[a, b] for a in WRAP for b in WRAP if a != b][:: 3]:
+            if rule == "no-inner-declarations" and chain:
+                continue   # a wrapper changes what "inner" means for this rule: only the plain form is a regression probe
+            for which, text in (("stmt", stmt), ("twin", twin)):
+                inner, off, _ = assemble(chain, text)
+                src = pre + inner + suf
+                ecases.append({"src": src, "media": "ts", "rules": [rule]})
+                emeta.append(("inside", (rule, which, tuple(chain)), len(pre.encode("utf8")) + off, src))
+    # re-entrancy: a clean instance of the SAME kind of construct sits inside a member of the offending construct and the
+    # offending construct continues after it; expected = diagnostics without the nested instance, shifted behind the hole
+    REENTRANT = [
+        ("no-duplicate-case", "switch (a) { case 1: ", "switch (b) { case 2: break; case 3: break; }", " break; case 2: break; case 1: break; }"),
+        ("no-duplicate-case", "switch (a) { case 1: ", "(() => { switch (b) { case 2: break; } })();", " break; case 2: break; case 1: break; }"),
+        ("no-duplicate-case", "switch (a) { case 1: ", "switch (b) { case 2: break; case 3: break; }", " break; case 2: break; case 4: break; }"),
+        ("no-fallthrough", "switch (a) { case 1: ", "switch (b) { case 2: break; }", " g(); case 2: break; }"),
+        ("no-fallthrough", "switch (a) { case 1: ", "switch (b) { case 2: g(); break; case 3: break; }", " break; case 2: break; }"),
+        ("no-case-declarations", "switch (a) { case 1: ", "switch (b) { case 2: { let y; } break; }", " let x; break; }"),
+        ("no-dupe-else-if", "if (a) { ", "if (b) {} else if (c) {}", " } else if (b) {} else if (a) {}"),
+        ("no-dupe-else-if", "if (a) { ", "if (b) {} else if (c) {}", " } else if (b) {} else if (c) {}"),
+        ("no-dupe-keys", "x = { a: ", "{ b: 1, c: 2 }", ", b: 2, a: 3 };"),
+        ("no-dupe-keys", "x = { a: ", "{ b: 1, c: 2 }", ", b: 2, c: 3 };"),
+        ("no-dupe-class-members", "class A { foo() { ", "class B { bar() {} baz() {} }", " } bar() {} foo() {} }"),
+        ("no-dupe-class-members", "class A { foo() { ", "class B { bar() {} baz() {} }", " } bar() {} baz() {} }"),
+        ("no-dupe-args", "function f(a, b = ", "function (b, c) {}", ", a) {}"),
+        ("constructor-super", "class A extends B { constructor() { ", "class C extends D { constructor() { super(); } }", " } }"),
+        ("constructor-super", "class A extends B { constructor() { ", "class C { constructor() { } }", " super(); } }"),
+        ("getter-return", "x = { get a() { ", "({ get b() { return 1; } });", " } };"),
+        ("require-yield", "function* g() { k(); ", "function* h() { yield 1; }", " }"),
+        ("require-yield", "function* g() { yield 0; ", "function* h() { yield 1; }", " }"),
+        ("require-yield", "function* g() { yield 0; ", "(function* () { yield 1; });", " }"),
+        ("no-this-before-super", "class A extends B { constructor() { ", "class C extends D { constructor() { super(); this.a; } }", " this.b; super(); } }"),
+        ("no-unsafe-finally", "function f() { try {} finally { ", "try {} finally { g(); }", " return 1; } }"),
+        ("no-this-before-super", "class A extends B { constructor() { ", "class C { x = this.y; }", " super(); } }"),
+        ("no-this-before-super", "class A extends B { constructor() { ", "class C { #x = this.y; }", " super(); } }"),
+        ("no-this-before-super", "class A extends B { constructor() { ", "class C { static { this.y; } }", " super(); } }"),
+        ("no-this-before-super", "class A extends B { constructor() { ", "class C { constructor() { this.y; } }", " super(); } }"),
+        ("no-this-before-super", "class A extends B { constructor() { ", "class C { m() { this.y; } get g() { return this.y; } set s(v) { this.y = v; } }", " super(); } }"),
+        ("no-this-before-super", "class A extends B { constructor() { ", "const o = { get a() { return this.y; }, set a(v) { this.y = v; }, m() { this.y; } };", " super(); } }"),
+        ("no-this-before-super", "class A extends B { constructor() { ", "class C extends D { constructor() { super(); } }", " this.b; super(); } }"),
+        ("no-this-before-super", "class A extends B { constructor() { ", "const o = { m() { super.m(); } };", " this.b; super(); } }"),
+        ("no-inner-declarations", "function f() { if (a) { ", "(function () { function ok() {} });", " function bad() {} } }"),
+        ("no-cond-assign", "if (a = ", "(b ? c : d)", ") {}"),
+        ("no-unreachable", "function f() { return 1; ", "function g() { return 2; }", " h(); }"),
+        ("no-empty", "if (a) { ", "", " } else { if (b) {} }"),
+    ]
+    for (rule, pre, hole, suf) in REENTRANT:
+        for which, text in (("with", hole), ("without", "")):
+            src = pre + text + suf
+            ecases.append({"src": src, "media": "ts", "rules": [rule]})
+            emeta.append(("reent", (rule, pre, hole, suf, which), len(pre.encode("utf8")), src))
+    eres = run_lint(ecases)
+    reent = {}
+    for (kind, key, off, src), r0 in zip(emeta, eres):
+        if kind == "reent":
+            reent[key] = (rule_diags(r0, key[0]), src)
+    for (rule, pre, hole, suf) in REENTRANT:
+        (dw, srcw), (do, _) = reent[(rule, pre, hole, suf, "with")], reent[(rule, pre, hole, suf, "without")]
+        if dw is None or do is None:
+            continue
+        po, hl = len(pre.encode("utf8")), len(hole.encode("utf8"))
+        want = sorted((c, s0 + (hl if s0 >= po else 0), e0 + (hl if e0 > po or (e0 == po and s0 >= po) else 0), m, h) for c, s0, e0, m, h in do)
+        if dw != want:
+            verdict = compare(want, dw) or "moved"
+            ctx.violation("C08.%s:%s:re-entrant" % (verdict if verdict in ("hidden", "duplicated") else "created", rule),
+                          "a clean nested instance of the same construct inside a member changes what is reported for the enclosing one: %s" % srcw,
+                          {"program": srcw, "rule": rule, "expected": want, "got": dw})
+    alone_d = {}
+    for (kind, key, off, src), r0 in zip(emeta, eres):
+        if kind == "alone":
+            alone_d[key] = rule_diags(r0, key[0])
+    n_e_ok = 0
+    plain = {}
+    for (kind, key, off, src), r0 in zip(emeta, eres):
+        if kind == "inside" and key[2] == () and key[1] == "stmt":
+            plain[key[0], src] = rule_diags(r0, key[0])
+    for (kind, key, off, src), r0 in zip(emeta, eres):
+        if kind == "chain":
+            base = alone_d.get(key)
+            got = rule_diags(r0, key[0])
+            if base is None or got is None:
+                continue
+            want = shifted(base, off)
+            if all(w in got for w in want):
+                n_e_ok += 1
+            else:
+                ctx.violation("C08.hidden:%s:same-operator-chain" % key[0], "the construct as left operand of the same operator is not reported at its own location: %s" % src,
+                              {"program": src, "rule": key[0], "expected_included": want, "got": got})
+        elif kind == "inside":
+            rule, which, chain = key
+            got = rule_diags(r0, rule)
+            if got is None:
+                continue
+            if which == "stmt":
+                stmt_text = [x for x in INSIDE if x[0] == rule][0]
+                hit = [g for g in got if g[1] <= off < max(g[2], g[1] + 1) or g[1] == off]
+                if hit:
+                    n_e_ok += 1
+                else:
+                    ctx.violation("C08.hidden:%s:inside-out:%s" % (rule, "/".join(chain) or "plain"),
+                                  "the offending statement wrapped in neutral statement contexts inside its enclosing construct is not reported: %s" % src,
+                                  {"program": src, "rule": rule, "offset": off, "got": got})
+            else:
+                if got:
+                    ctx.violation("C08.created:%s:inside-out:%s" % (rule, "/".join(chain) or "plain"), "the neutral twin is reported: %s" % src, {"program": src, "rule": rule, "got": got})
+                else:
+                    n_e_ok += 1
+    ctx.correspondence("same-operator chains (construct as unparenthesised left operand) and inside-out embeddings (offending statement wrapped inside its enclosing construct)",
+                       len(ecases), n_e_ok, [], "non-trivial := confirmed prediction")
     ctx.extra["c08"] = {
         "outcomes": dict(stats),
         "excluded_non_neutral_depth1": {k: sorted(set(v)) for k, v in r["excl"]["non_neutral"].items()},
